@@ -49,15 +49,18 @@ from .pybytes import NAT, INT, PROP, BOOL, BYTES, NONE, POISON, OPT, is_opt, opt
 from .pyexpr import Untranslatable
 
 REF, REFS, SLICE, SELF, STR, ANY = 'R', 'List R', 'slice', 'self', 'str', 'any'
+# argument forms of bitarray built-ins: a PLAIN bitarray (not a TvmBitarray), a list / tuple of ints, an iterable without a length
+PLAINBITS, INTLIST, ITER = 'plainbits', 'List Int', 'iter'
 
 
 def STATE(c):
     return f'state:{c}'
 
 
-TYPE_TAG = {NAT: 'nat', INT: 'int', BOOL: 'bool', BITS: 'bits', BYTES: 'bytes', SLICE: 'slice', REF: 'ref'}
+TYPE_TAG = {NAT: 'nat', INT: 'int', BOOL: 'bool', BITS: 'bits', BYTES: 'bytes', SLICE: 'slice', REF: 'ref', STR: 'str', PLAINBITS: 'bitarray',
+            INTLIST: 'ints', ITER: 'iter'}
 ISINSTANCE = {'int': {NAT, INT, BOOL}, 'bool': {BOOL}, 'str': {STR}, 'slice': {SLICE}, 'bytes': {BYTES}, 'bytearray': set(),
-              'bitarray': {BITS}, 'TvmBitarray': {BITS}}
+              'bitarray': {BITS, PLAINBITS}, 'TvmBitarray': {BITS}, 'list': {INTLIST}, 'tuple': set()}
 
 
 class SProgram(Program):
@@ -78,6 +81,12 @@ class SProgram(Program):
             return t
         if t == STR:
             return 'Bytes'
+        if t == PLAINBITS:
+            return 'Bits'
+        if t == INTLIST:
+            return 'List Int'
+        if t == ITER:
+            return 'Unit'
         if t == ANY:
             return 'Unit'
         if t == SELF or t == NONE:
@@ -202,6 +211,7 @@ class STr(MTr):
         self.uses_mk = False          # the cell constructor `mk` (a parameter) is used, directly or by a callee
         self.uses_view = False        # `view` (what `<cell>.begin_parse()` reads of a referenced cell; a parameter) is used
         self.uses_fuel = False        # the method (or a callee) has a `while True` loop: the declared iteration bound `fuel`
+        self.uses_conv = None         # (name, Lean type) of a declared conversion constructor used (a parameter), directly or by a callee
         self.whiles = 0               # > 0 inside the body of a `while True` (a `return` leaves the loop: Sum.inr)
         self.mutates = False          # the method changes the state of self
         self.cond = 0                 # > 0 while the test of an if / assert is translated (numbers in and / or mean "non-zero")
@@ -468,8 +478,12 @@ class STr(MTr):
             kws = {k.arg: k.value for k in e.keywords}
             if f.id == 'len' and len(e.args) == 1 and not kws:
                 v, t = self.expr(e.args[0])
-                if t in (REFS, BITS):
+                if t in (REFS, BITS, PLAINBITS, INTLIST):
                     return f'{v}.length', NAT
+                if t == STR:
+                    return f'(Py.strLen {v})', NAT           # the number of characters of the str (it travels as its UTF-8 bytes)
+                if t == ITER:
+                    return self.hoist('(none : Option Nat)', 'len'), NAT      # TypeError: an iterator has no len()
                 return pybytes.BTr.call(self, e, key)
             if f.id in ('int2ba', 'ba2int') and f.id in self.prog.externs:
                 sg = kws.pop('signed', None)
@@ -487,6 +501,12 @@ class STr(MTr):
                 raise Untranslatable(f'{f.id} call shape')
             if f.id == 'bool' and len(e.args) == 1 and not kws:
                 return self.truth(self.expr(e.args[0])), PROP
+            if f.id == 'int' and len(e.args) == 1 and not kws and self.prog.externs.get('str=utf8'):
+                save = (list(self.pre), self.fresh, self.reads)
+                v, t = self.expr(e.args[0])
+                if t == STR:
+                    return self.hoist(f'Py.intOfStr? {v}', 'int'), INT      # int('..'): decimal literal, ValueError otherwise
+                self.pre, self.fresh, self.reads = save
             if (f.id == 'int' and len(e.args) == 2 and not kws and isinstance(e.args[1], ast.Constant) and e.args[1].value == 2
                     and isinstance(e.args[0], ast.Call) and isinstance(e.args[0].func, ast.Attribute) and e.args[0].func.attr == 'to01'
                     and not e.args[0].args and not e.args[0].keywords):
@@ -522,6 +542,14 @@ class STr(MTr):
         """`C(args)` for a declared record class: ctor = dict(shape='args' | 'tuple', fields=[(field, type)], rest={field: lean})"""
         c = d['ctor']
         args = list(e.args)
+        if c.get('of') and len(args) == 1 and not isinstance(args[0], ast.Tuple):
+            save = (list(self.pre), self.fresh, self.reads)
+            v, t = self.expr(args[0])
+            if t in c['of']:
+                # declared: `C(x)` for an x of this type is the interface function named here (a parameter; it may raise)
+                self.uses_conv = c['of'][t]
+                return self.hoist(f'{c["of"][t][0]} {par(v)}', 'obj'), OBJ(cname)
+            self.pre, self.fresh, self.reads = save
         if c['shape'] == 'tuple':
             if len(args) != 1 or not isinstance(args[0], ast.Tuple):
                 raise Untranslatable(f'{cname}(...) is not called with a tuple literal')
@@ -702,6 +730,9 @@ class STr(MTr):
         if info.get('fuel'):
             self.uses_fuel = True
             out += ' fuel'
+        if info.get('conv'):
+            self.uses_conv = info['conv']
+            out += ' ' + info['conv'][0]
         return out
 
     def fit_args(self, cls, name, args):
@@ -772,7 +803,13 @@ class STr(MTr):
         args = e.args
         if name == 'extend' and len(args) == 1:
             x, t = self.expr(args[0])
-            if t != BITS:
+            if t == STR:
+                x = self.hoist(f'Py.bitsOfStr? {x}', 'bits')       # '0' / '1', whitespace and '_' skipped; ValueError otherwise
+            elif t == INTLIST:
+                x = self.hoist(f'Py.bitsOfInts? {x}', 'bits')      # every item 0 / 1; ValueError otherwise (nothing is appended)
+            elif t == ITER:
+                x = self.hoist('(none : Option Bits)', 'bits')     # the items of an iterator are not modelled (here: behind `len(x)`, which raised)
+            elif t not in (BITS, PLAINBITS):
                 raise Untranslatable(f'extend with a {t}')
             self.mutate('set', None, f'self ++ {x}')
         elif name == 'append' and len(args) == 1:
@@ -781,6 +818,8 @@ class STr(MTr):
                 el = f'(decide {x})'
             elif t == NAT:
                 el = self.hoist(f'Py.bitOfNat? {x}', 'bit')
+            elif t == INT:
+                el = self.hoist(f'Py.bitOfInt? {x}', 'bit')
             else:
                 raise Untranslatable(f'append of a {t} to a bitarray')
             self.mutate('set', None, f'self ++ [{el}]')
@@ -1235,6 +1274,8 @@ class STr(MTr):
             mk += f'(view : {self.prog.externs["view"]}) '
         if self.uses_fuel:
             mk += '(fuel : Nat) '
+        if self.uses_conv:
+            mk += f'({self.uses_conv[0]} : {self.uses_conv[1]}) '
         text = f'{doc}def {self.lean} {mk}{ps + " " if ps else ""}(self : {st}) : {st} × Option {tpar(self.prog.lean_ty(rt))} :=\n{indent(body)}\n'
         return dict(lean=self.lean, params=self.params, ret=rt, text=text, retry=retry, mk=self.uses_mk, view=self.uses_view, fuel=self.uses_fuel,
-                    mutates=self.mutates)
+                    conv=self.uses_conv, mutates=self.mutates)
